@@ -192,7 +192,7 @@ def templates(tier, seed):
     T.append(("load:two", "set R0 1\narray R0 @0\nset R1 0\nset R2 2\nstore R2 @0[R1]\nset Q0 1\nload Q1 @0[R1]\ncnot Q0 Q1\n"))
     T.append(("load:scratch", "set R0 1\narray R0 @0\nset R1 0\nset R2 2\nstore R2 @0[R1]\nload Q0 @0[R1]\nset Q1 1\nset Q2 2\ncnot Q1 Q2\nx Q0\n"))
     if tier == "thorough":
-        for _ in range(120):
+        for _ in range(400):
             a, b = rnd.choice(placements)
             c, d = rnd.choice(placements)
             gA, gB, gC = rnd.choice(G2), rnd.choice(G1), rnd.choice(G2)
@@ -238,7 +238,7 @@ def main(tier, seed):
     rep.bounds = [f"{len(specs)} subroutine templates over 3 qubits (electron + 2 carbons): every single-qubit gate / rotation on every qubit, "
                   "CNOT / CPHASE in every placement, conditionals, loops with an end label, branches past the end, measurement-steered gates, "
                   "backward jumps into an expansion, Q registers re-written between gates, Q registers written by load; debug off and (for a "
-                  "seventh of the templates) on" + ("; 120 seeded composite programs" if tier == "thorough" else ""),
+                  "seventh of the templates) on" + ("; 400 seeded composite programs" if tier == "thorough" else ""),
                   "register contents for branch conditions symbolic (-2..3), four measurement outcomes symbolic, quantum state arbitrary"]
     rep.outside = ["more than 2 carbons", "rotation operands other than the listed dyadic ones inside programs (arbitrary n, d are C07 (b))",
                    "init on a live qubit (non-unitary reset)"]
